@@ -470,18 +470,50 @@ func replayCoop(repro map[string]any) (string, bool) {
 	vsched.Workers = 1
 	r.clearStats()
 	ref := vsched.RunDefault(r.body(f, cc)).Obs
-	vsched.Workers = sc.W
-	r.clearStats()
 	var choices []int
 	if l, ok := repro["schedule"].([]any); ok {
 		for _, c := range l {
 			choices = append(choices, int(c.(float64)))
 		}
+		vsched.Workers = sc.W
+		r.clearStats()
 		res := vsched.Replay(choices, r.body(f, cc))
 		return fmt.Sprintf("sequential reference: %s\nobserved under the recorded schedule: %s (closure calls incl. after return: %v)\nleaks: %v\ncrashes: %v\nschedule (%d transitions):\n  %s",
 			ref, res.Obs, r.maxEver, res.Leaks, res.Crashes, len(res.Trace), strings.Join(res.Trace, "\n  ")), res.Obs != ref || res.Deadlock || len(res.Crashes) > 0
 	}
+	seqTicks := r.maxEver
+	vsched.Workers = sc.W
+	r.clearStats()
 	st := vsched.Explore(vsched.Config{PreemptBound: -1, MaxExecs: 1000000}, r.body(f, cc))
-	return fmt.Sprintf("sequential reference %s; %d executions, outcomes %v; needed input pulls/closure calls %d/%d, sequential demand %d, max over schedules %v, min at return %v",
-		ref, st.Execs, st.Outcomes, cc.a.callsLo[0], cc.a.callsLo[1], cc.seqNeed, r.maxEver, r.minAtReturn), len(st.Outcomes) != 1
+	// the oracles of the check, re-applied
+	var bad []string
+	if ref != cc.a.res.String() {
+		bad = append(bad, fmt.Sprintf("sequential result %s differs from the value the needed prefix determines (%s)", ref, cc.a.res.String()))
+	}
+	if seqTicks[1] < int64(cc.a.callsLo[1]) || seqTicks[1] > int64(cc.seqNeed) {
+		bad = append(bad, fmt.Sprintf("sequential evaluation: %d closure calls, demand model allows %d..%d", seqTicks[1], cc.a.callsLo[1], cc.seqNeed))
+	}
+	for obs := range st.Outcomes {
+		if obs != ref {
+			bad = append(bad, "outcome "+obs+" under some schedule differs from the sequential result")
+		}
+	}
+	if st.FirstDeadlock() != nil || st.FirstCrash() != nil {
+		bad = append(bad, "deadlock or panic under some schedule")
+	}
+	if r.minAtReturn[1] < int64(cc.a.callsLo[1]) || r.minAtReturn[0] < int64(cc.a.callsLo[0]) {
+		bad = append(bad, "fewer closure calls than the result needs under some schedule")
+	}
+	if sc.Timed && !st.Capped {
+		hi1 := seqTicks[1] + int64(sc.W)
+		hi0 := hi1 + 1
+		if sc.N <= window {
+			hi0, hi1 = min64(hi0, sc.N), min64(hi1, sc.N)
+		}
+		if r.maxEver[1] > hi1 || r.maxEver[0] > hi0 {
+			bad = append(bad, fmt.Sprintf("parallel stage reads further ahead (%v) than the workers and the feeder can hold (input pulls <= %d, closure calls <= %d)", r.maxEver[:2], hi0, hi1))
+		}
+	}
+	return fmt.Sprintf("sequential reference %s with closure calls %v; %d executions, outcomes %v; needed input pulls/closure calls %d/%d, sequential demand allowed up to %d, max over schedules %v, min at return %v; violated: %v",
+		ref, seqTicks[:2], st.Execs, st.Outcomes, cc.a.callsLo[0], cc.a.callsLo[1], cc.seqNeed, r.maxEver, r.minAtReturn, bad), len(bad) > 0
 }
